@@ -9,7 +9,7 @@ META = {
                    "process mode (pool model, every completion order) with an uninterpreted objective. Oracle: "
                    "best_solution has the position and cost of an agent of evolution[-1] and no agent of evolution[-1] "
                    "is strictly better in the task's direction.",
-    "bounds": {"quick": "(agents,cycles) in {(1,1),(1,2),(2,1),(2,2),(3,1)} with and without +-inf kinds; pool family: 2 agents", "thorough": "+ (4,1),(3,2),(2,3) finite costs; pool family 3 agents"},
+    "bounds": {"quick": "(agents,cycles) in {(1,1),(1,2),(2,1),(2,2),(3,1)} with and without +-inf kinds; update rule through _extend_and_trim / _replace_and_trim with 0..1 candidates; pool family: 2 agents", "thorough": "+ (4,1),(3,2),(2,3) finite costs; pool family 3 agents"},
     "outside": "NaN costs; populations larger than the bound",
     "stubs": ["pydantic-lite", "np.random.seed no-op", "pool model with solver-chosen completion order",
               "np.random.* symbolic stream (pool family)"],
@@ -48,6 +48,31 @@ def ob_scripted(k, cycles, dname, inf, ps=None):
             exp = [c if direction == MIN else -c for c in costs_of(gens[cycles])]
             if costs_of(res.evolution[-1].agents) != exp:
                 return Failure("last-generation-costs", got=costs_of(res.evolution[-1].agents), expected=exp)
+            return check_best(res, direction)
+    return f
+
+
+def ob_helper_rule(which, k, j, dname):
+    """the scripted update rule goes through the base class's own merge helpers with j candidates - j = 0 included (an
+    update rule that found no acceptable candidate in a cycle): the final generation is whatever the helper left and
+    best_solution must be its optimum"""
+    direction = DIRS[dname]
+
+    def f():
+        with env(allow_seed=True):
+            cur = [agent((0, i), sym.real(f"c0.{i}"), fitness=0.5) for i in range(k)]
+            new = [agent((1, i), sym.real(f"c1.{i}"), fitness=0.5) for i in range(j)]
+
+            def step(o, c):
+                if which == "extend_trim":
+                    o._extend_and_trim_population(list(new))
+                else:
+                    o._replace_and_trim_population(list(o._population) + list(new))
+            opt = Scripted(M.BaseOptimizationConfig(population_size=k, fitness_error=None, max_cycles=1),
+                           init=lambda o: list(cur), step=step)
+            res = opt.optimize(make_task([cont()], lambda x, i: 0.0, minmax=direction))
+            if len(res.evolution[-1].agents) != k:
+                return Failure("helper-rule:generation-size", got=len(res.evolution[-1].agents))
             return check_best(res, direction)
     return f
 
@@ -95,6 +120,11 @@ def obligations(tier):
         obs.append(Ob(f"scripted_undersize[k=2,ps=4,{d}]", ob_scripted(2, 1, d, False, ps=4), 300))
     for k, cycles in ((2, 1), (3, 1)):
         obs.append(Ob(f"scripted[k={k},cycles={cycles},max-str,inf=0]", ob_scripted(k, cycles, "max-str", False), 300))
+    for which in ("extend_trim", "replace_trim"):
+        for j in (0, 1, 2) if th else (0, 1):
+            for d in ("min", "max"):
+                obs.append(Ob(f"scripted_helper[{which},k={3 if th else 2},j={j},{d}]",
+                              ob_helper_rule(which, 3 if th else 2, j, d), 300))
     for mode in ("thread", "process"):
         for d in ("min", "max"):
             obs.append(Ob(f"pooled[n={3 if th else 2},{mode},{d}]", ob_pooled(3 if th else 2, mode, d), 600))
